@@ -7,4 +7,4 @@ Extraction "rawkv_model.ml"
   lex_cmp st_get srv_put srv_get st_del range loc_lo loc_hi loc_end_lo
   scan rscan drange_loop cksum cks_list batch_get batch_put bdel_rounds srv_cas spec_cas
   group_keys sub_batches key_chunks put_chunks all_served drange_run
-  srv_batch_put srv_batch_delete Z.of_N.
+  srv_batch_put srv_batch_delete append_batches client_scan client_rscan Z.of_N.
